@@ -163,12 +163,18 @@ theorem gen_validate_optimizer_name_eq_model (v : Value) :
     TrainerConfig_validate_optimizer_name v = Rule.check (.oneOf ["Adam", "AdamW"]) (.leaf v) :=
   oneOf_eq_model _ v
 
-/-- the three `validate_model_type` methods are the model's rule `oneOf ["tiny", "small", "base"]` -/
+/-- the `validate_model_type` methods of the three SwinT and the four ConvNext config classes are the
+model's rules `oneOf ["tiny", "small", "base"]` / `oneOf ["tiny", "small", "base", "large"]` -/
 theorem gen_validate_model_type_eq_model (v : Value) :
-    SwinTConfig_validate_model_type v = Rule.check (.oneOf ["tiny", "small", "base"]) (.leaf v) ∧
-    SwinTSmallConfig_validate_model_type v = Rule.check (.oneOf ["tiny", "small", "base"]) (.leaf v) ∧
-    SwinTBaseConfig_validate_model_type v = Rule.check (.oneOf ["tiny", "small", "base"]) (.leaf v) :=
-  ⟨oneOf_eq_model _ v, oneOf_eq_model _ v, oneOf_eq_model _ v⟩
+    (SwinTConfig_validate_model_type v = Rule.check (.oneOf ["tiny", "small", "base"]) (.leaf v) ∧
+     SwinTSmallConfig_validate_model_type v = Rule.check (.oneOf ["tiny", "small", "base"]) (.leaf v) ∧
+     SwinTBaseConfig_validate_model_type v = Rule.check (.oneOf ["tiny", "small", "base"]) (.leaf v)) ∧
+    (ConvNextConfig_validate_model_type v = Rule.check (.oneOf ["tiny", "small", "base", "large"]) (.leaf v) ∧
+     ConvNextSmallConfig_validate_model_type v = Rule.check (.oneOf ["tiny", "small", "base", "large"]) (.leaf v) ∧
+     ConvNextBaseConfig_validate_model_type v = Rule.check (.oneOf ["tiny", "small", "base", "large"]) (.leaf v) ∧
+     ConvNextLargeConfig_validate_model_type v = Rule.check (.oneOf ["tiny", "small", "base", "large"]) (.leaf v)) :=
+  ⟨⟨oneOf_eq_model _ v, oneOf_eq_model _ v, oneOf_eq_model _ v⟩,
+   ⟨oneOf_eq_model _ v, oneOf_eq_model _ v, oneOf_eq_model _ v, oneOf_eq_model _ v⟩⟩
 
 /-- attrs' `validators.ge(0)`, `le(1)`, `gt(0)` (prelude reading) are the model's `ge0`, `le1`, `gt0` -/
 theorem gen_attrs_bounds_eq_model (v : Value) :
@@ -198,7 +204,7 @@ theorem gen_validated_classes_eq_model (cls : String) :
   constructor
   · intro h
     simp only [validated_classes, List.mem_cons, List.not_mem_nil, or_false] at h
-    rcases h with h | h | h | h | h | h | h | h | h | h | h <;> subst h <;> simp [fieldRules]
+    rcases h with h | h | h | h | h | h | h | h | h | h | h | h | h | h | h <;> subst h <;> simp [fieldRules]
   · intro h
     unfold fieldRules at h
     simp only [validated_classes, List.mem_cons, List.not_mem_nil, or_false]
@@ -215,7 +221,7 @@ theorem gen_field_validators_eq_model (cls : String) (v : Value) :
   have hm := gen_validate_min_lr_eq_model v
   have hd := gen_validate_trainer_devices_eq_model v
   have ho := gen_validate_optimizer_name_eq_model v
-  obtain ⟨ht1, ht2, ht3⟩ := gen_validate_model_type_eq_model v
+  obtain ⟨⟨ht1, ht2, ht3⟩, ⟨hc1, hc2, hc3, hc4⟩⟩ := gen_validate_model_type_eq_model v
   obtain ⟨hge, hle, hgt⟩ := gen_attrs_bounds_eq_model v
   unfold field_validators fieldRules
   split <;> simp_all
